@@ -221,6 +221,10 @@ func genStep(rt *rapid.T, p *Profile, cfg *Config, i int) Step { //nolint:cyclop
 	} else if rapid.IntRange(0, 11).Draw(rt, "otherUser") == 0 {
 		st.U = rapid.IntRange(1, len(Users)).Draw(rt, "u")
 	}
+	if (p.Odd || p.Name == "C04" || p.Name == "C06" || p.Name == "C07" || p.Name == "C08") && (st.Op == "Refresh" || st.Op == "CreatePermission" || st.Op == "ChannelBind") &&
+		rapid.IntRange(0, 7).Draw(rt, "dupAny") == 0 {
+		st.Dup = true // the network delivers the request twice
+	}
 	switch st.Op {
 	case "Allocate":
 		st.Life = rapid.SampledFrom(lifetimes).Draw(rt, "life")
